@@ -195,6 +195,14 @@ theorem address_string_roundtrip_base58 (regs : List (List UInt8)) (H : List UIn
       decodeAddress regs H validPK ((Addr.sh h net.sh).string H) net = .ok (.sh h net.sh)) :=
   Lemmas.decodeAddress_string_b58 regs H hH validPK net hne h hl
 
+/-- the side condition is dischargeable: a main-network P2PKH string starts with `'1'`, which no registered
+human-readable part does, so it round-trips unconditionally. -/
+theorem mainnet_p2pkh_roundtrip (H : List UInt8 → List UInt8) (hH : ∀ x, (H x).length = 4)
+    (validPK : List UInt8 → Bool) (h : List UInt8) (hl : h.length = 20) :
+    decodeAddress Spec.registeredHrps H validPK ((Addr.pkh h Spec.mainNet.pkh).string H) Spec.mainNet =
+      .ok (.pkh h Spec.mainNet.pkh) :=
+  Lemmas.mainnet_p2pkh_roundtrip H hH validPK h hl
+
 /-- encode → decode for pay-to-pubkey addresses (compressed 02/03 and uncompressed 04 serializations; hybrid keys are
 re-serialized uncompressed by the constructor): `String()`, the hex of the key, decodes to the same address. -/
 theorem address_string_roundtrip_pubkey (regs : List (List UInt8)) (H : List UInt8 → List UInt8)
